@@ -108,7 +108,8 @@ class World:
         if ready:
             self.clock.advance(self.rtt)
             return ready, [], []
-        self.clock.advance(timeout if timeout is not None else 3600.0, timeout=True)
+        self.clock.advance(timeout if timeout is not None else 3600.0)      # a poll interval, not a read timeout
+        self.clock.polls = getattr(self.clock, 'polls', 0) + 1
         return [], [], []
 
     def time(self):
